@@ -8,9 +8,9 @@ W="${TMPDIR:-/var/tmp}/rs2coq_redteam_extra"
 rm -rf "$W"; mkdir -p "$W"
 fails=0
 copy_repo() {
-  mkdir -p "$1/examples" "$1/fuzz/fuzz_targets" "$1/tests" "$1/etc/correctness/test-parse-golang"
+  mkdir -p "$1/examples" "$1/fuzz/fuzz_targets" "$1/tests" "$1/etc/correctness/test-parse-golang" "$1/etc/correctness/rng-tests" "$1/etc/correctness/test-parse-random" "$1/etc/correctness/test-parse-unittests"
   cp -r /repo/src "$1/src"; cp /repo/Cargo.toml "$1/Cargo.toml"; cp /repo/examples/simple.rs "$1/examples/"; cp /repo/fuzz/fuzz_targets/parse.rs "$1/fuzz/fuzz_targets/"
-  cp /repo/tests/integration_tests.rs "$1/tests/"; cp /repo/etc/correctness/test-parse-golang/main.rs "$1/etc/correctness/test-parse-golang/"
+  cp /repo/tests/integration_tests.rs "$1/tests/"; cp /repo/etc/correctness/test-parse-golang/main.rs "$1/etc/correctness/test-parse-golang/"; cp /repo/etc/correctness/rng-tests/_common.rs "$1/etc/correctness/rng-tests/"; cp /repo/etc/correctness/test-parse-random/_common.rs "$1/etc/correctness/test-parse-random/"; cp /repo/etc/correctness/test-parse-unittests/main.rs "$1/etc/correctness/test-parse-unittests/"
 }
 case_() {  # name  file(rel to repo)  python-edit-expression on variable s
   local n="$1" f="$2" edit="$3"
